@@ -8,7 +8,7 @@ from vf import core
 
 THEOREMS = ["yield_bounded_bypass", "yield_poll_loop_progress", "sched_conservation_1thread",
             "yield_starvation_on_schedule_from"]
-SPAWN, YIELD, IDLE, BLOCK, WAKE, BAL = 1, 2, 3, 4, 5, 6
+SPAWN, YIELD, IDLE, BLOCK, WAKE, BAL, PARK, FLIP = 1, 2, 3, 4, 5, 6, 7, 8
 SOURCES = ["src/fiber_scheduler_wsd.c", "src/work_stealing_deque.c"]
 TARGET = 1      # 1: schedule() pushes on store_to (current code); 0: schedule_from
 
@@ -27,49 +27,84 @@ def parse_case(case):
 
 def monitor(case, tr, raw):
     """(a) conservation: a fiber runs on at most one thread at a time and every
-    run was preceded by its own schedule; (b) single kernel thread: a READY
-    fiber is bypassed at most 2(n-1) times, n = fibers ready or running."""
+    run was preceded by its own schedule; a SAVING fiber is never made RUNNING;
+    (b) single kernel thread: a fiber that next() may hand out (READY, or WAITING
+    again after having been scheduled while SAVING) is bypassed at most 2(n-1)
+    times, n = fibers that are running or sit in the run queues (RUNNING, READY,
+    SAVING, or flipped back to WAITING while queued)."""
     if tr is None:
         return "implementation produced no trace: %s" % (raw or "")[:80]
     _, progs = parse_case(case)
     n = len(progs)
     opidx = [0] * n
     running = {}        # fiber -> thread
-    current = [0] * n
     state = {}
+    armed = {}          # fiber was scheduled while SAVING and has not run since
     bypass = {}
     maxn = {}
+
+    def counted(g):
+        sv = state.get(g, 0)
+        return sv in (1, 2, 5) or (sv == 3 and armed.get(g))
+
+    def elig(g):
+        sv = state.get(g, 0)
+        return sv == 2 or (sv == 3 and armed.get(g))
+
     for (t, loc, kind, val) in tr:
         if kind == 919 and val in (7, 8):
             return "thread %d never finished" % t
         if 200 <= loc < 300 and kind == 19:
             f = loc - 200
+            if val == 1 and state.get(f) == 5:
+                return "fiber %d made RUNNING while SAVING_STATE_TO_WAIT" % f
             state[f] = val
-            if n == 1 and val == 2:
-                nr = sum(1 for g, sv in state.items() if sv in (1, 2))
-                for g, sv in state.items():
-                    if sv == 2:
-                        maxn[g] = max(maxn.get(g, 0), nr)
+            if val == 5:
+                armed[f] = True
             if val == 1:        # RUNNING on thread t
                 if f in running and running[f] != t:
                     return "fiber %d made RUNNING on thread %d while running on thread %d" % (f, t, running[f])
                 running[f] = t
-                if n == 1:
-                    nready = sum(1 for g, sv in state.items() if sv in (1, 2))
-                    for g, sv in state.items():
-                        if sv == 2 and g != f:
-                            bypass[g] = bypass.get(g, 0) + 1
-                            maxn[g] = max(maxn.get(g, 0), nready)
-                            if bypass[g] > 2 * max(1, maxn[g] - 1):
-                                return ("fiber %d is READY and was bypassed %d times while at most %d fibers were "
-                                        "ready (bound 2(n-1))" % (g, bypass[g], maxn[g]))
-                    bypass[f] = 0
-                    maxn[f] = 0
+                armed[f] = False
             elif f in running and val in (2, 3):
                 del running[f]
+            if n == 1:
+                nr = sum(1 for g in state if counted(g))
+                for g in state:
+                    if elig(g):
+                        maxn[g] = max(maxn.get(g, 0), nr)
+                if val == 1:
+                    for g in state:
+                        if g != f and elig(g):
+                            bypass[g] = bypass.get(g, 0) + 1
+                            if bypass[g] > 2 * max(1, maxn[g] - 1):
+                                return ("fiber %d can be handed out and was bypassed %d times while at most %d "
+                                        "fibers were running or queued (bound 2(n-1))" % (g, bypass[g], maxn[g]))
+                    bypass[f] = 0
+                    maxn[f] = 0
         if kind == 909:
             opidx[t] += 1
     return None
+
+
+SAVING_PATTERNS = [
+    # the only queued fiber is SAVING: next() moves it to store_to and returns NULL (twice), then the flip
+    [(SPAWN, 1), (IDLE, 0), (BLOCK, 0), (PARK, 1), (IDLE, 0), (IDLE, 0), (FLIP, 1), (IDLE, 0), (YIELD, 0)],
+    # a SAVING fiber among yielding ones, flipped later
+    [(SPAWN, 1), (SPAWN, 2), (SPAWN, 3), (IDLE, 0), (BLOCK, 0), (PARK, 3)] + [(YIELD, 0)] * 5 +
+    [(FLIP, 3)] + [(YIELD, 0)] * 6,
+    # two SAVING fibers, one flipped; wake / park of a fiber that is already queued are refused
+    [(SPAWN, 1), (SPAWN, 2), (SPAWN, 3), (SPAWN, 4), (IDLE, 0), (BLOCK, 0), (BLOCK, 0), (PARK, 4), (PARK, 3),
+     (YIELD, 0), (YIELD, 0), (FLIP, 4), (WAKE, 4), (PARK, 4), (WAKE, 3), (YIELD, 0), (YIELD, 0), (YIELD, 0),
+     (FLIP, 3), (YIELD, 0), (YIELD, 0), (YIELD, 0), (YIELD, 0)],
+    # everything SAVING while a fiber keeps yielding (it must keep running), then flips
+    [(SPAWN, 1), (SPAWN, 2), (SPAWN, 3), (IDLE, 0), (BLOCK, 0), (BLOCK, 0), (PARK, 3), (PARK, 2),
+     (YIELD, 0), (YIELD, 0), (YIELD, 0), (FLIP, 2), (YIELD, 0), (YIELD, 0), (FLIP, 3), (YIELD, 0), (YIELD, 0),
+     (YIELD, 0)],
+    # fiber ids outside 1..32 are refused
+    [(SPAWN, 0), (WAKE, 0), (PARK, 0), (FLIP, 0), (SPAWN, 33), (WAKE, 33), (PARK, 40), (FLIP, 99), (SPAWN, 1),
+     (SPAWN, 32), (IDLE, 0), (YIELD, 0), (YIELD, 0)],
+]
 
 
 def gen_cases(ctx, tier):
@@ -86,6 +121,20 @@ def gen_cases(ctx, tier):
             prog = prog[:60]
             cases.append(core.fmt_case([3000, TARGET], [prog], []))
     n1 = len(cases)
+    # single kernel thread with fibers scheduled while SAVING_STATE_TO_WAIT (park-saving / flip)
+    for p in SAVING_PATTERNS:
+        cases.append(core.fmt_case([3000, TARGET], [p], []))
+    for nf in range(2, 7):
+        for rep in range(12 if tier == "quick" else 60):
+            prog = [(SPAWN, f) for f in range(1, nf + 1)] + [(IDLE, 0)]
+            for _ in range(rng.randint(8, 45)):
+                prog.append((rng.choice([YIELD] * 6 + [BLOCK] * 2 + [PARK] * 3 + [FLIP] * 3 + [WAKE, IDLE, BAL]),
+                             rng.randint(1, nf)))
+                if prog[-1][0] == BLOCK and rng.random() < 0.7:
+                    prog.append((rng.choice([PARK, PARK, WAKE]), rng.randint(1, nf)))
+            prog = prog[:60]
+            cases.append(core.fmt_case([3000, TARGET], [prog], []))
+    n2 = len(cases) - n1
     nrand = 1200 if tier == "quick" else 30000
     for _ in range(nrand):
         nt = rng.choice([1, 2, 2, 3, 3, 4])
@@ -98,12 +147,13 @@ def gen_cases(ctx, tier):
                 if rng.random() < 0.8:
                     p.append((SPAWN, f))
             for _ in range(rng.randint(2, 25)):
-                p.append((rng.choice([YIELD] * 5 + [IDLE] * 4 + [BLOCK, WAKE, WAKE, BAL]), rng.randint(1, nfib)))
+                p.append((rng.choice([YIELD] * 5 + [IDLE] * 4 + [BLOCK, WAKE, WAKE, BAL, PARK, FLIP]),
+                          rng.randint(0 if rng.random() < 0.02 else 1, nfib)))
             progs.append(p[:60])
         length = rng.randint(5, 30 * sum(len(p) for p in progs))
         cases.append(core.fmt_case([4000, TARGET], progs, core.random_sched(rng, nt, length, rng.randrange(3))))
-    ctx.coverage["case_distribution"] = {"single_thread_yield_patterns": n1, "random_multi_thread": nrand,
-                                         "total": len(cases)}
+    ctx.coverage["case_distribution"] = {"single_thread_yield_patterns": n1, "single_thread_saving_patterns": n2,
+                                         "random_multi_thread": nrand, "total": len(cases)}
     return cases
 
 
